@@ -224,10 +224,14 @@ func reqSetOf(c *Case, idx []int) string {
 }
 
 func TestBatchRoundTrip(t *testing.T) {
-	ev.Rule(chk, "rapid: batches of 1-40 valid queued operations over 1-6 DIDs, or (one in four) over 7-40 DIDs so that the files themselves carry up to 40 operations, half of those with one shared document template (highly compressible chunk files): any mix and order of the four types, repeated suffixes (2+ operations for one DID), deactivate-only, update-only, create-only, single-operation batches, operations the intake time validator reports as expired, anchor origins of several JSON types, all key types and both hash algorithms, deltas over all eight patch actions; real OperationHandler and OperationProvider over one in-memory CAS with gzip; one time in four the same handler object has just rejected a batch made of a prefix of the same operations and an unparseable request; oracle: read-back = first non-expired queued operation per suffix, ordered create / recover / update / deactivate (any order inside a group), same type, suffix, JSON-equal request, embedded anchor origin for create / recover; anchor string count == operations read back; references, additional and expired partition the queued multiset; non-trivial = repeated suffix, or >= 3 types, or an expired operation")
+	ev.Rule(chk, "rapid: batches of 1-40 valid queued operations over 1-6 DIDs (one batch in twenty-five preceded by 101-300 creates for as many further DIDs), or (one in four) over 7-40 DIDs so that the files themselves carry up to 40 operations, half of those with one shared document template (highly compressible chunk files): any mix and order of the four types, repeated suffixes (2+ operations for one DID), deactivate-only, update-only, create-only, single-operation batches, operations the intake time validator reports as expired, anchor origins of several JSON types, all key types and both hash algorithms, deltas over all eight patch actions; real OperationHandler and OperationProvider over one in-memory CAS with gzip; one time in four the same handler object has just rejected a batch made of a prefix of the same operations and an unparseable request; oracle: read-back = first non-expired queued operation per suffix, ordered create / recover / update / deactivate (any order inside a group), same type, suffix, JSON-equal request, embedded anchor origin for create / recover; anchor string count == operations read back; references, additional and expired partition the queued multiset; non-trivial = repeated suffix, or >= 3 types, or an expired operation")
 	ev.Rapid(t, chk, 300, 4000, func(t *rapid.T) {
 		code := rapid.SampledFrom([]uint64{asm.SHA256, asm.SHA512}).Draw(t, "hash")
 		c := &Case{Code: code, Ops: gen.Batch(t, code, 40, true, "c13")}
+		if rapid.IntRange(0, 24).Draw(t, "hugeBatch") == 0 {
+			// a batch far beyond hand-written sizes: 101-300 creates, followed by whatever the drawn batch holds
+			c.Ops = append(gen.BulkCreates(code, rapid.IntRange(101, 300).Draw(t, "hugeOps"), "c13"), c.Ops...)
+		}
 		if rapid.IntRange(0, 3).Draw(t, "rejectedBatchFirst") == 0 {
 			// the long-lived handler has just rejected a batch: some of the same operations followed by a request it
 			// cannot parse
